@@ -102,6 +102,9 @@ def step (d : DS) (ws : List String) : DS × String :=
       let s' := if took then exit d.fullCfg d.state d.now else d.state
       let (txt, n) := newRecs d s'
       ({ d with st := some s', stack := rest, nout := n }, s!"recs={txt}")
+  | ["FORK"] =>
+    let s' := forkChild d.state
+    ({ d with st := some s', nout := 0 }, "forked recs=-")
   | ["FLUSH"] =>
     let s' := flushTop d.state
     let (txt, n) := newRecs d s'
